@@ -109,7 +109,7 @@ theorem C14_typed_containers_fresh {E : Env} (o n : Nat) (sh : Shape) (v v' : CV
 /-! ## The copy is live -/
 
 /-- **Live.**  A value that is `Live` for object `o` (every restored or cloned
-value is: `C14_rebound`, `C14_clone_deep`) behaves as a state of the live
+value is: `C14_rebound`, `C14_clone_values_partial`) behaves as a state of the live
 container model: a mutation of any container in it, at any depth, that is
 ACCEPTED leaves the value live, and at a declared container it is accepted only
 if the trait of that position accepts the item (so an invalid item raises).
@@ -172,7 +172,7 @@ theorem C14_readonly_stays {E : Env} (hI : Idem E) (hC : CopyStable E) {s : Obj}
 trait whose `copy` metadata does not ask for less, whose value contains no
 detached container (see `C14_clone_values` below) : the clone holds an equal
 value, live for the clone, made only of NEW container objects. -/
-theorem C14_clone_deep {E : Env} (hI : Idem E) (hC : CopyStable E) {src : Slot} (hw : WFSlot E src)
+theorem C14_clone_values_partial {E : Env} (hI : Idem E) (hC : CopyStable E) {src : Slot} (hw : WFSlot E src)
     (hc : src.decl.copyable = true) (hk : src.decl.kind ≠ .event)
     (hm : src.decl.copy = none ∨ src.decl.copy = some .deep)
     (oS oD n : Nat) (all : Bool) (hd : NoDetached (readSlot E oS n src).1) :
